@@ -68,6 +68,8 @@ package impl
 //@   ensures [stay-paused] calls(manager.resumeOther) == 1 && ret(manager.resumeOther, 0) == nil && calls(GetByID) == 1 &&
 //@       ret(GetByID, 1) == nil && ret(GetByID, 0).SelfPaused() ==> result == datatransfer.ErrPause
 //@   ensures [resume-flow] calls(manager.resumeOther) == 1 ==> !response.IsPaused() && !response.IsComplete() && all(manager.resumeOther, $1 == chid)
+//@   ensures [resume-consults-own-pause] {C11} calls(manager.resumeOther) == 1 && ret(manager.resumeOther, 0) == nil ==> calls(GetByID) == 1 &&
+//@       all(GetByID, $2 == chid) -- after the counterparty resumed, the local pause state decides whether the transport is told to stay paused
 
 // ---------------------------------------------------------------------------------------------
 // utils.go
@@ -584,3 +586,30 @@ package impl
 //@ func (*impl.manager).OnSendDataError {C20}
 //@ func (*impl.manager).OnReceiveDataError {C20}
 //@ func (*impl.manager).OnContextAugment {C20}
+
+// public wrappers and stop (C04/C05/C08: the traced wrapper adds nothing to the checked implementation; C06/C19: queries go
+// through the flushing read; C20/C09: Stop shuts every component down, the transport last, and returns its result)
+//@ func (*impl.manager).UpdateValidationStatus {C04,C05,C08}
+//@   acquires {C20} channels.progressCache.lk, graphsync.Transport.dtChannelsLk, graphsync.dtChannel.lk, tracing.SpansIndex.spansLk
+//@   ensures [delegates] calls(manager.updateValidationStatus) == 1 && all(manager.updateValidationStatus, $2 == chid && $3 == result) &&
+//@       only(manager.updateValidationStatus) && result0 == ret(manager.updateValidationStatus, 0)
+//@ func (*impl.manager).ChannelState {C06,C19}
+//@   ensures [flushing-read] calls(GetByID) == 1 && all(GetByID, $2 == chid) && only(GetByID) && result0 == ret(GetByID, 0) && err == ret(GetByID, 1)
+//@ func (*impl.manager).TransferChannelStatus {C19}
+//@   ensures [status-or-not-found] calls(GetByID) == 1 && all(GetByID, $2 == chid) && only(GetByID) &&
+//@       (ret(GetByID, 1) != nil ==> result == datatransfer.ChannelNotFoundError) && (ret(GetByID, 1) == nil ==> result == ret(GetByID, 0).Status())
+//@ func (*impl.manager).InProgressChannels {C06}
+//@   ensures [lists-store] calls(Channels.InProgress) == 1 && only(Channels.InProgress) && err == ret(Channels.InProgress, 1)
+//@ func (*impl.manager).RegisterVoucherType {C04}
+//@   acquires {C20} registry.Registry.registryLk
+//@   ensures [registers-once] calls(Registry.Register) == 1 && all(Registry.Register, $0 == m.validatedTypes && $1 == voucherType) && only(Registry.Register) &&
+//@       ((result == nil) == (ret(Registry.Register, 0) == nil))
+//@ func (*impl.manager).RegisterTransportConfigurer {C04}
+//@   acquires {C20} registry.Registry.registryLk
+//@   ensures [registers-once] calls(Registry.Register) == 1 && all(Registry.Register, $0 == m.transportConfigurers && $1 == voucherType) && only(Registry.Register) &&
+//@       ((result == nil) == (ret(Registry.Register, 0) == nil))
+//@ func (*impl.manager).Stop {C20,C09}
+//@   acquires {C20} graphsync.Transport.dtChannelsLk, graphsync.dtChannel.lk, tracing.SpansIndex.spansLk, transportoptions.TransportOptions.optionsLk
+//@   requires m.channelMonitor != nil && m.spansIndex != nil && m.transportOptions != nil && m.channelSubscriptions != nil && m.channels != nil && m.transport != nil
+//@   ensures [everything-stopped] called(SpansIndex.EndAll) && called(TransportOptions.ClearAll) && called(ChannelSubscriptions.Stop) &&
+//@       called(Group.Stop) && last(Transport.Shutdown) && result == ret(Transport.Shutdown, 0)
